@@ -192,7 +192,7 @@ def run_shard(args):
 	m = re.search(r'=\s*(.*?)\s*:\s*list N', out, flags=re.S)
 	if not m:
 		return idx, None, out[-3000:]
-	return idx, [int(x) for x in re.findall(r'(\d+)%N', m.group(1))], ''
+	return idx, [int(x) for x in re.findall(r'\d+', m.group(1))], ''
 
 
 def correspondence(spec, items, shard_size=400):
@@ -307,7 +307,9 @@ def run(spec, tier, seed, replay=None):
 	items = []
 	for i, (c, o) in enumerate(zip(cases, obs)):
 		t = spec.coq_case(c, o)
-		if t is not None:
+		if isinstance(t, list):
+			items.extend((i, tt) for tt in t)
+		elif t is not None:
 			items.append((i, t))
 	corr_bad, corr_err = ([], [])
 	if b['ok'] or os.path.exists(os.path.join(COQ, getattr(spec, 'CORR_VO', 'Lib/Bytes.vo'))):
